@@ -9,6 +9,8 @@ import Dmn.Lemmas.DrgBuild
 import Dmn.Lemmas.DrgDfs
 import Dmn.Lemmas.DrgTable
 import Dmn.Lemmas.DrgScope
+import Dmn.Lemmas.DrgDen
+import Dmn.Lemmas.DrgEquation
 import Dmn.Props.C03
 import Dmn.Props.C11
 import Dmn.Lemmas.EvalM
@@ -30,7 +32,11 @@ since the repairs of F14 and F28), `decision_context_spec`, `knowledge_model_bou
 `item_typed_variable_conforming` (item definitions, through C11) ·
 `service_outputs` · `graph_bottom_never_reached`, `acyclic_fuel_suffices_ranked`,
 `acyclic_fuel_suffices`, `acyclic_complete` · `built_graph_ranked`, `built_graph_fuel_suffices`,
-`check_requirements_complete` (`check_requirements` of `ModelEvaluator::new`).
+`check_requirements_complete` (`check_requirements` of `ModelEvaluator::new`) ·
+`boxed_denotation`, `boxed_denotation_level` (`evalBoxed` = the stateless denotation `denBoxed`,
+`Dmn/Model/DrgDen.lean`) · `decision_value_is_logic_over_requirements` (+ `_ranked`, `built_graph_decision_value`:
+the property statement as one equation, for every acyclic graph), `requirement_env_binds`,
+`decision_values_unique` (the equation has one solution, by induction on the topological rank).
 -/
 
 namespace Dmn.Drg
@@ -758,5 +764,203 @@ example :
     evalBoxedRows witnessBase [.namedParameters [.namedParameter (.parameterName "c0") (.numeric "1" "")]] [[]] =
       .ok ([.ctx [("c0", .num ⟨false, 1, 0⟩)]], [[]]) := by
   refine ⟨rfl, rfl, rfl, rfl, rfl⟩
+
+/-! ## the stateless denotation of boxed expressions
+
+`denBoxed env a Γ` (`Dmn/Model/DrgDen.lean`) is a function from an environment — the nested contexts names are
+looked up in — to a value: a boxed context evaluates each entry in the environment extended by the entries before
+it, an invocation its bindings and the called function in the enclosing environment and the function's body in
+that environment extended by the parameters, a relation every cell in the enclosing environment; a decision table
+and a literal expression are the values of the table closure and of the FEEL evaluator.  No scope is threaded
+through it and none comes back. -/
+
+/-- **`evalBoxed` is `denBoxed`**, for every boxed expression — context with and without result entry,
+invocation, function definition, relation, decision table, literal expression, nested in any way — and every
+scope: the stack effects of the closures (`push`, `set_entry`, `pop`) amount to evaluating each part in the
+environment its position prescribes, and the scope is handed back as it was.  `hc`: function bodies write at most
+into the context pushed for their arguments. -/
+theorem boxed_denotation (env : Env) (hc : ∀ b, EvalM.TopOnly (env.call b)) (a : Ast) (s : Scope) :
+    evalBoxed env a s = EvalM.lift (denBoxed env a s) s :=
+  evalBoxed_eq_den env hc a s
+
+/-- The same at every level of a requirement graph, where `hc` holds (`topOnly_level_call`): no hypothesis. -/
+theorem boxed_denotation_level (base : Env) (g : Drg) (G ff : Nat) (a : Ast) (s : Scope) :
+    evalBoxed (level base g G ff).env a s = EvalM.lift (denBoxed (level base g G ff).env a s) s :=
+  evalBoxed_eq_den _ (topOnly_level_call base g G ff) a s
+
+-- Non-vacuity: `witnessBase` satisfies `hc`; the denotation of the nested witnesses, computed without any scope
+-- being handed on, is the value `evalBoxed` gives: `{inner: 2, outer: 10}` in the environment `{a: 10}`, 13 for the
+-- context `{x: k + 1, <result> x + 10}` in `{k: 2}`, one context per relation row.
+example :
+    (∀ b, EvalM.TopOnly (witnessBase.call b)) ∧
+    denBoxed witnessBase nestedContextWitness [[("a", .num ⟨false, 10, 0⟩)]] =
+      .ok (.ctx [("inner", .num ⟨false, 2, 0⟩), ("outer", .num ⟨false, 10, 0⟩)]) ∧
+    denBoxed witnessBase (Boxed.context [
+        .contextEntry (.contextEntryKey "x") (.add (.name "k") (.numeric "1" "")),
+        .add (.name "x") (.numeric "10" "")]) [[("k", .num ⟨false, 2, 0⟩)]] = .ok (.num ⟨false, 13, 0⟩) ∧
+    denBoxed witnessBase nestedComposeWitness [[]] = .ok .null ∧
+    denBoxed witnessBase (Boxed.relation [.namedParameters [.namedParameter (.parameterName "c0") (.numeric "1" "")]]) [[]] =
+      .ok (.list [.ctx [("c0", .num ⟨false, 1, 0⟩)]]) := by
+  refine ⟨fun b => EvalM.topOnly_of_pres EvalM.pres_diverge, rfl, rfl, rfl, rfl⟩
+
+/-! ## the property statement as one equation
+
+`Spec.logicOverRequirements g env K V d input` (`Dmn/Model/DrgDen.lean`): the denotation of the logic of `d` in
+the environment `requirementEnv` — the required inputs bound to the supplied, type-checked values, shadowed by the
+required knowledge models' function values `K`, the required decision services as functions and the variables of
+the required decisions bound to **those decisions' values `V`** — converted to the type of the output variable. -/
+
+/-- **A decision's value is its logic evaluated over its requirement graph.**  For a graph with a topological
+numbering `rk` bounded by `N`, and graph fuel `gf ≥ N`: the value of a registered decision invoked by name is
+`logicOverRequirements` where the value of every required decision is *the value of that decision invoked by
+name on the same input data* — the recursion over the requirement graph closes at one level of fuel (the
+registries are a fixed point of `graphStep`: `spec_graph_fixpoint`). -/
+theorem decision_value_is_logic_over_requirements_ranked (base : Env) (g : Drg) (rk : Kind → String → Nat)
+    (hr : g.rankedBy rk = true) (N : Nat) (hb : ∀ k id, rk k id ≤ N) (ff gf : Nat) (hgf : N ≤ gf)
+    (id : String) (d : Decision) (hf : g.findDecision id = some d) (input : Ctx) :
+    evalDecision base g ff gf id input =
+      Spec.logicOverRequirements g (level base g gf ff).env (Spec.requiredKnowledge base g ff gf d.reqKnowledge)
+        (fun r => evalDecision base g ff gf r input) d input := by
+  have hV : (fun r => evalDecision base g ff gf r input) =
+      fun r => namedResult ((Spec.graphAt g (level base g gf ff).env Spec.divergeGraph gf).decision r [] input []) := by
+    funext r
+    rw [eval_decision_spec]
+    unfold Spec.evalDecision
+    rw [spec_level_graph base g gf ff, ← level_env_rel base g gf ff]
+  have hfix := spec_graph_fixpoint hr N hb (level base g gf ff).env gf hgf
+  rw [hV, eval_decision_spec]
+  unfold Spec.evalDecision Spec.requiredKnowledge
+  rw [spec_level_graph base g gf ff, ← level_env_rel base g gf ff]
+  rw [← decisionValue_eq_logic g _ (topOnly_level_call base g gf ff) _ hfix d input]
+  rw [← namedResult_decision g _ _ id d hf [] input, hfix]
+
+/-- The same for every graph `Drg.acyclic` accepts (the decidable predicate; `acyclic_complete`: every graph
+with unique ids and a topological order), with graph fuel at least the number of elements. -/
+theorem decision_value_is_logic_over_requirements (base : Env) (g : Drg) (hac : g.acyclic = true)
+    (ff gf : Nat) (hgf : g.size ≤ gf) (id : String) (d : Decision) (hf : g.findDecision id = some d) (input : Ctx) :
+    evalDecision base g ff gf id input =
+      Spec.logicOverRequirements g (level base g gf ff).env (Spec.requiredKnowledge base g ff gf d.reqKnowledge)
+        (fun r => evalDecision base g ff gf r input) d input :=
+  decision_value_is_logic_over_requirements_ranked base g g.computeRank hac g.size
+    (fun k id => heightAt_le g g.size k id) ff gf hgf id d hf input
+
+/-- And for every graph `ModelEvaluator::new` builds (`check_requirements` accepts). -/
+theorem built_graph_decision_value (base : Env) (g : Drg) (h : g.checkRequirements = true)
+    (ff gf : Nat) (hgf : g.size ≤ gf) (id : String) (d : Decision) (hf : g.findDecision id = some d) (input : Ctx) :
+    evalDecision base g ff gf id input =
+      Spec.logicOverRequirements g (level base g gf ff).env (Spec.requiredKnowledge base g ff gf d.reqKnowledge)
+        (fun r => evalDecision base g ff gf r input) d input :=
+  decision_value_is_logic_over_requirements_ranked base g _ (built_graph_ranked g h).1 g.size
+    (built_graph_ranked g h).2 ff gf hgf id d hf input
+
+/-- **What the environment of the logic binds**, for any assignment `V` of values to decisions: the variable of
+a required decision to the value `V` gives the (last such) decision, otherwise the variable of a required
+decision service to the service as a function, otherwise a name the required knowledge models wrote to that
+function value, otherwise the name of a required input to the supplied value, type-checked; nothing else. -/
+theorem requirement_env_binds (base : Env) (g : Drg) (ff gf : Nat) (V : String → Outcome Value) (d : Decision)
+    (input k1 k3 : Ctx)
+    (hk1 : Spec.requiredKnowledge base g ff gf d.reqKnowledge = .ok k1)
+    (hk3 : Spec.requiredDecisionValues g V d.reqDecisions (g.serviceFns d.reqKnowledge k1) = .ok k3) (n : String) :
+    Ctx.get (Spec.requirementEnv g d input k3) n =
+      match Spec.valueBinding g V n d.reqDecisions with
+      | some v => some v
+      | none =>
+        match Spec.serviceBinding g n d.reqKnowledge with
+        | some f => some f
+        | none =>
+          match Ctx.get k1 n with
+          | some f => some f
+          | none => Spec.inputBinding g input n d.reqInputs := by
+  have w1 : Ctx.WF k1 := by
+    unfold Spec.requiredKnowledge at hk1
+    rw [spec_level_graph base g gf ff] at hk1
+    refine foldCtx_WF _ (fun id c c' hc h => ?_) _ _ _ Ctx.WF_nil hk1
+    unfold Spec.callBkm at h
+    cases hfb : g.findBkm id with
+    | none => rw [hfb] at h; cases h; exact hc
+    | some _ => rw [hfb] at h; exact (wfp_graphAt g _ gf).bkm id c c' hc h
+  have w3 := requiredDecisionValues_WF g V _ _ k3 (serviceFns_WF g _ _ w1) hk3
+  unfold Spec.requirementEnv
+  rw [get_zip _ _ w3, requiredDecisionValues_get g V _ _ k3 n hk3]
+  cases Spec.valueBinding g V n d.reqDecisions with
+  | some v => rfl
+  | none =>
+    simp only []
+    rw [serviceFns_get]
+    cases Spec.serviceBinding g n d.reqKnowledge with
+    | some f => rfl
+    | none =>
+      simp only []
+      cases Ctx.get k1 n with
+      | some f => rfl
+      | none =>
+        simp only []
+        rw [typedInputs_get]
+        cases Spec.inputBinding g input n d.reqInputs <;> rfl
+
+/-- **The values of the decisions are the only solution of the equation**: on a graph with a topological
+numbering, an assignment `V` of values to decisions that satisfies "the value of `d` is its logic over the values
+of its requirements" at every registered decision is the assignment `evaluate_invocable` computes.  By induction
+on the rank (`values_unique`). -/
+theorem decision_values_unique (base : Env) (g : Drg) (rk : Kind → String → Nat)
+    (hr : g.rankedBy rk = true) (N : Nat) (hb : ∀ k id, rk k id ≤ N) (ff gf : Nat) (hgf : N ≤ gf) (input : Ctx)
+    (V : String → Outcome Value)
+    (hV : ∀ id d, g.findDecision id = some d →
+      V id = Spec.logicOverRequirements g (level base g gf ff).env
+        (Spec.requiredKnowledge base g ff gf d.reqKnowledge) V d input) :
+    ∀ id d, g.findDecision id = some d → V id = evalDecision base g ff gf id input :=
+  values_unique hr (level base g gf ff).env (fun d => Spec.requiredKnowledge base g ff gf d.reqKnowledge) input
+    V (fun r => evalDecision base g ff gf r input) hV
+    (fun id d hf => decision_value_is_logic_over_requirements_ranked base g rk hr N hb ff gf hgf id d hf input)
+
+/-- Non-vacuity of `decision_values_unique`: the values `evaluate_invocable` computes satisfy the hypothesis `hV`. -/
+example (base : Env) (g : Drg) (rk : Kind → String → Nat) (hr : g.rankedBy rk = true) (N : Nat)
+    (hb : ∀ k id, rk k id ≤ N) (ff gf : Nat) (hgf : N ≤ gf) (input : Ctx) :
+    ∀ id d, g.findDecision id = some d →
+      (fun r => evalDecision base g ff gf r input) id = Spec.logicOverRequirements g (level base g gf ff).env
+        (Spec.requiredKnowledge base g ff gf d.reqKnowledge) (fun r => evalDecision base g ff gf r input) d input :=
+  fun id d hf => decision_value_is_logic_over_requirements_ranked base g rk hr N hb ff gf hgf id d hf input
+
+/-- the decision `A` of `witnessF14` -/
+def witnessF14A : Decision :=
+  { id := "_a", name := "A", var := "A", ty := .untyped, reqInputs := [], reqDecisions := [],
+    reqKnowledge := [], logic := .numeric "1" "" }
+
+/-- the decision `B` of `witnessF14` -/
+def witnessF14B : Decision :=
+  { id := "_b", name := "B", var := "B", ty := .untyped, reqInputs := [], reqDecisions := ["_a"],
+    reqKnowledge := [], logic := .add (.name "A") (.numeric "1" "") }
+
+/-- Non-vacuity: `witnessF14` (`A = 1`, `B = A + 1`, `B` requires `A`) is acyclic, builds, has the numbering
+A ↦ 0, B ↦ 1; `B` is registered; its equation evaluates — required knowledge `{}`, required decisions `{A: 1}`,
+value 2 — and in the environment of its logic `A` is bound to the value `V` gives `_a`. -/
+example :
+    witnessF14.acyclic = true ∧ witnessF14.checkRequirements = true ∧ witnessF14.size = 2 ∧
+    witnessF14.rankedBy (fun _ id => if id = "_b" then 1 else 0) = true ∧
+    witnessF14.findDecision "_b" = some witnessF14B ∧
+    Spec.requiredKnowledge witnessBase witnessF14 1 2 witnessF14B.reqKnowledge = .ok [] ∧
+    (∀ V : String → Outcome Value, V "_a" = .ok (.num ⟨false, 1, 0⟩) →
+        Spec.logicOverRequirements witnessF14 witnessBase (.ok []) V witnessF14B [] = .ok (.num ⟨false, 2, 0⟩) ∧
+        Spec.valueBinding witnessF14 V "A" witnessF14B.reqDecisions = some (.num ⟨false, 1, 0⟩)) := by
+  have hfa : witnessF14.findDecision "_a" = some witnessF14A := by
+    simp [findDecision, findLast?, witnessF14, witnessF14A]
+  have hfb : witnessF14.findDecision "_b" = some witnessF14B := by
+    simp [findDecision, findLast?, witnessF14, witnessF14B]
+  refine ⟨by decide, by decide, by decide, by decide, hfb, rfl, ?_⟩
+  intro V hV
+  have h1 : Spec.requiredDecisionValues witnessF14 V witnessF14B.reqDecisions
+      (witnessF14.serviceFns witnessF14B.reqKnowledge []) = .ok [("A", .num ⟨false, 1, 0⟩)] := by
+    show Spec.requiredDecisionValues witnessF14 V ["_a"] [] = _
+    simp only [Spec.requiredDecisionValues, hfa, hV]
+    rfl
+  have h2 : denBoxed witnessBase witnessF14B.logic
+      [Spec.requirementEnv witnessF14 witnessF14B [] [("A", .num ⟨false, 1, 0⟩)]] = .ok (.num ⟨false, 2, 0⟩) := rfl
+  constructor
+  · simp only [Spec.logicOverRequirements, h1, h2]
+    show Outcome.ok (Value.coerced .any _) = _
+    rw [coerced_any]
+  · show Spec.valueBinding witnessF14 V "A" ["_a"] = _
+    simp only [Spec.valueBinding, hfa, hV]
+    rfl
 
 end Dmn.Drg
